@@ -168,7 +168,9 @@ def render_params(m, is_method, spelling=None):
         if p.get("ann") is None or sp.get("wrap") == "missing":
             return ""
         if sp.get("wrap") == "string":
-            return f": \"A{mid}_{p['name']}\""
+            # a string annotation names a module-level alias; the same alias name (and module name) is reused by every
+            # program, as happens when a module is executed again
+            return ": \"TYPE_ALIAS\""
         return f": A{mid}_{p['name']}"
 
     parts = ["self"] if is_method else []
@@ -288,6 +290,9 @@ class Program:
                         import typing
 
                         a = typing.Annotated[a, "meta"]
+                    if sp and sp.get("wrap") == "string":
+                        glb["TYPE_ALIAS"] = a
+                        glb["__name__"] = "verifprog_reexecuted"
                     self.anns[key] = a
                     glb[f"A{key}"] = a
                 if p.get("opt"):
